@@ -117,7 +117,7 @@ def run_C04(tier, seed):
                 out.append({"sig": msg.split(" ")[0] + "-" + msg.split(" ")[1], "what": msg, "step": idx}); break
         return out
     rng = random.Random(seed)
-    res = _history_run("C04", tier, seed, PLAIN + ("cands", "seeds", "min", "blockplain"), 300, 5000, 6, 10, (100000, 100000, 100000, 2, 3, 5), pred, _nontrivial_hist,
+    res = _history_run("C04", tier, seed, PLAIN + ("cands", "seeds", "min", "blockplain", "aseeds"), 300, 5000, 6, 10, (100000, 100000, 100000, 2, 3, 5), pred, _nontrivial_hist,
                        "random interleavings of plain expansion ops (expand/bfs/dfs/min/target; random start nodes, level/stack/size limits, max_motifs_per_node in {default,2,3,5}) on random and modular networks; each history is followed by nothing else, the full reference comes from the model; non-trivial = final diagram has more than 2 nodes")
     # second clause: continuing with unrestricted BFS gives the fresh diagram
     return res
@@ -130,14 +130,14 @@ def run_C03(tier, seed):
         # completion reported by a strategy started at the root (start None or 0) => minimal trap spaces exact
         for idx, (op, st) in enumerate(zip(hist, w["steps"][1:]), start=1):
             complete = (op[0] in ("bfs", "dfs", "min") and op[1] in (None, 0) and st["real_result"] == "true") or (op[0] == "skiprem" and st["real_result"].startswith("nat:")) \
-                       or (op[0] == "block" and st["real_result"] == "true" and idx == 1)
-            if complete and all(is_plain(o) or o[0] in ("skiprem", "min", "block") for o in hist[:idx]):
+                       or (op[0] in ("block", "aseeds") and st["real_result"] == "true" and idx == 1)
+            if complete and all(is_plain(o) or o[0] in ("skiprem", "min", "block", "aseeds") for o in hist[:idx]):
                 got = sorted(st["meta"]["minimal"])
                 if got != sorted(w["mintraps"]):
                     out.append({"sig": "minimal-trap-spaces-" + op[0], "what": f"after {op} (returned {st['real_result']}) minimal_trap_spaces() = {got}, inclusion-minimal trap spaces = {sorted(w['mintraps'])}", "step": idx}); break
         return out
     def gen_kinds():
-        return ("expand", "bfs", "dfs", "min", "target", "skip", "skiprem", "block")
+        return ("expand", "bfs", "dfs", "min", "target", "skip", "skiprem", "block", "aseeds")
     return _history_run("C03", tier, seed, gen_kinds(), 300, 5000, 5, 8, (100000,), pred, _nontrivial_hist,
                         "random plain histories (with limits and start nodes) containing complete strategies from the root (bfs/dfs/minimal-space with and without skip_ignored) or completed by skip_remaining; predicate compares minimal_trap_spaces() with the brute-force inclusion-minimal trap spaces whenever a root strategy returns True; non-trivial = more than 2 nodes")
 
